@@ -12,8 +12,8 @@ EXTENDS Integers, Sequences, FiniteSets, TLC, Json, CSV, IOUtils
 
 CONSTANT MaxDepth
 
-Kinds  == {"throw", "div", "builtin", "nargs", "index", "notcallable"}
-Styles == {"stmt", "assign", "retplus", "closure", "recur", "module", "method", "bare", "baremod"}
+Kinds  == {"throw", "div", "builtin", "nargs", "index", "notcallable", "forin", "slice", "selector", "setindex", "setselector"}
+Styles == {"stmt", "assign", "retplus", "closure", "recur", "module", "method", "bare", "baremod", "inblock", "tryfin", "mutual"}
 Blanks == {0, 1, 3}
 
 L(k, a, b) == [k |-> k, a |-> a, b |-> b]
@@ -60,11 +60,30 @@ Module(kind) ==
    modlines |-> <<L("deffn", "f", ""), L("fail", kind, ""), L("close", "", ""), L("retmap", "f", "")>>,
    trace |-> <<2, 2>>, file |-> <<"main", "mod">>]
 
+\* the failing statement sits inside nested blocks of its function (or of the main script)
+InBlock(d, kind) ==
+  IF d = 0 THEN [lines |-> <<L("openif", "", ""), L("openfor", "", ""), L("fail", kind, ""), L("close", "", ""), L("close", "", "")>>, trace |-> <<3>>, file |-> <<"main">>]
+  ELSE [lines |-> <<L("deffn", "f1", ""), L("openif", "", ""), L("openfor", "", ""), L("fail", kind, ""), L("close", "", ""), L("close", "", ""), L("close", "", ""),
+                    L("openfor", "", ""), L("callstmt", "f1", ""), L("close", "", "")>>, trace |-> <<9, 4>>, file |-> <<"main", "main">>]
+\* the error leaves through finally blocks (which run) on its way out
+TryFin(d, kind) ==
+  IF d = 0 THEN [lines |-> <<L("opentry", "", ""), L("fail", kind, ""), L("finopen", "", ""), L("finstmt", "", ""), L("close", "", "")>>, trace |-> <<2>>, file |-> <<"main">>]
+  ELSE [lines |-> <<L("deffn", "f1", ""), L("opentry", "", ""), L("fail", kind, ""), L("finopen", "", ""), L("finstmt", "", ""), L("close", "", ""), L("close", "", ""),
+                    L("opentry", "", ""), L("callstmt", "f1", ""), L("finopen", "", ""), L("finstmt", "", ""), L("close", "", "")>>, trace |-> <<9, 3>>, file |-> <<"main", "main">>]
+\* mutual recursion a -> b -> a ..., 2 * m levels, through two different call sites
+Mutual(m, kind) ==
+  [lines |-> <<L("vardecl", "b", ""), L("defrec", "a", "n"), L("ifzero", "n", ""), L("fail", kind, ""), L("close", "", ""), L("callrecassign", "b", "n"), L("retx", "", ""), L("close", "", ""),
+               L("assignfn", "b", "n"), L("callrecassign", "a", "n"), L("retx", "", ""), L("close", "", ""), L("callrecmain", "a", ToString(2 * m))>>,
+   trace |-> <<13>> \o [i \in 1..(2 * m) |-> IF i % 2 = 1 THEN 6 ELSE 10] \o <<4>>, file |-> [i \in 1..(2 * m + 2) |-> "main"]]
+
 \* the failing statement (or the call) is the very first token of its file: no header line is rendered
 Bare == [lines |-> <<L("fail", "throw", "")>>, trace |-> <<1>>, file |-> <<"main">>, bare |-> TRUE]
 BareMod == [lines |-> <<L("importstmt", "mod", "")>>, modlines |-> <<L("fail", "throw", "")>>, trace |-> <<1, 1>>, file |-> <<"main", "mod">>, bare |-> TRUE]
 Prog(c) == CASE c.st = "bare" -> Bare [] c.st = "baremod" -> BareMod
              [] c.st = "recur" -> Recur(c.d, c.kind)
+             [] c.st = "inblock" -> InBlock(c.d, c.kind)
+             [] c.st = "tryfin" -> TryFin(c.d, c.kind)
+             [] c.st = "mutual" -> Mutual(c.d, c.kind)
              [] c.st = "closure" -> Closure(c.kind)
              [] c.st = "module" -> Module(c.kind)
              [] OTHER -> Chain(c.d, c.kind, c.st)
@@ -74,7 +93,9 @@ vars == <<c, ph>>
 Init == ph = 0 /\ c \in {x \in [d : 0..MaxDepth, kind : Kinds, st : Styles \ {"method"}, k : Blanks] :
                           /\ (x.st \in {"closure", "module"} => x.d = 1)
                           /\ (x.st \in {"bare", "baremod"} => (x.d = 0 /\ x.kind = "throw"))
-                          /\ (x.st = "recur" => x.d >= 1)}
+                          /\ (x.st = "recur" => x.d >= 1)
+                          /\ (x.st \in {"inblock", "tryfin"} => x.d <= 1)
+                          /\ (x.st = "mutual" => x.d \in 1..2)}
 Judge == ph = 0 /\ ph' = 1 /\ UNCHANGED c
 Next == Judge
 Spec == Init /\ [][Next]_vars
